@@ -15,6 +15,11 @@ CHECKS = {
    technique='exhaustive exploration (z3 all-SAT over verdict and schedule choice vectors) of the real strategy_hierarchical.reduce (and hybrid), followed by an independent proposal enumerator on the result that queries the same oracle',
    text='For every verdict function of four oracle families and every pool schedule within the budgets, on 9 scenario configurations: after reduce() returns, no proposal of any mutator of the last pass on any node of the result is accepted by the oracle; untested candidates get free verdicts, so a candidate skipped for good is found as a satisfiable acceptance.',
    note="Trusted: the nondeterministic environment of vlib/stubs/strat.py (oracle families: first-V free verdicts, hash classes, required tokens, consistent numerals; FakePool with atomic pull/execute/deliver steps; plain abort flag); z3 as exhaustive enumerator of choice vectors (all-SAT, generalised to the bits each run read). The strategy code itself runs natively, unmodified. Outside: real processes and torn reads between feeder thread and main thread; more free verdicts / scheduling choices than the budget; other inputs than the scenario scripts."),
+ 'C03': dict(
+   category='model_checking', design_ref='DESIGN.md 5 C03',
+   technique='exhaustive exploration (z3 all-SAT over the verdict bits of a hash-class oracle family) of the real strategies asserting that no accepted input repeats; bounded-exhaustive enumeration of all two-step proposal chains and a step bound on every mutator call (concrete, auxiliary)',
+   text='Bounded claim (unbounded termination is not decidable here - no ranking function, docs/faq.rst): under every command of the hash-class family - which contains the adversarial commands that accept exactly the members of a would-be cycle - the hierarchical, ddmin and hybrid strategies never accept an input they accepted before, on 8 cycle-prone scripts with all 61 mutators enabled; no proposal leaves its input unchanged and no two proposals in sequence lead back to the start (about 50 000 chains enumerated); every filter/mutations/apply call stays below 64 (n+1)^2 node constructions.',
+   note='Trusted: oracle/pool stubs (C05); z3 as exhaustive enumerator. Outside: chains longer than two steps that no explored run follows; inputs outside the corpus; runs with more than 40 acceptances are cut off and counted.'),
  'C04': dict(
    category='model_checking', design_ref='DESIGN.md 5 C04',
    technique='bounded symbolic execution (CrossHair/z3): parser on every text up to the bound without the balancedness precondition; theory detection / collect_information / counting / rendering on command trees whose identifier leaves are symbolic strings (the solver finds the magic names); exit-status and usage-error mapping with symbolic outcomes; exception isolation by bounded enumeration',
